@@ -475,6 +475,136 @@ fn do_events() -> String {
     s
 }
 
+// ---------------------------------------------------------------------------------------------
+// `gc2` / `gcn`: several mutators request a collection at the same moment
+// ---------------------------------------------------------------------------------------------
+
+/// one requester of a `gc2` / `gcn` round: mutator `m`; after the rendezvous it spins `skew` iterations (running,
+/// i.e. the world cannot be stopped meanwhile) or, with `safe`, sleeps `skew` microseconds inside a safe region
+#[derive(Clone, Copy)]
+struct ReqSpec {
+    m: usize,
+    skew: usize,
+    safe: bool,
+}
+
+/// what one requester observed: return value, `block_for_gc` calls made for it during the call, `gcs` right before
+/// the call and right after it returned
+#[derive(Clone, Copy, Default)]
+struct ReqOut {
+    ret: bool,
+    blocked: usize,
+    before: usize,
+    after: usize,
+}
+
+static GCN_READY: AtomicUsize = AtomicUsize::new(0);
+
+/// The user-GC call of mutator `m` on the calling thread, bracketed by `VmMisc(4, m)` / `VmMisc(5, 2m + ret)`.
+fn user_gc_call(m: usize, force: bool, exhaustive: bool) -> ReqOut {
+    let mmtk = rt::mmtk();
+    let b0 = rt::my_blocks();
+    let before = rt::gcs();
+    vg::ev(vg::Kind::VmMisc, 4, m);
+    let ret = if !force && !exhaustive {
+        mm::handle_user_collection_request(mmtk, rt::mut_tls(m))
+    } else {
+        mmtk.handle_user_collection_request(rt::mut_tls(m), force, exhaustive)
+    };
+    let after = rt::gcs();
+    vg::ev(vg::Kind::VmMisc, 5, 2 * m + ret as usize);
+    ReqOut { ret, blocked: rt::my_blocks() - b0, before, after }
+}
+
+/// spin rendezvous of `n` threads, then the requester's skew
+fn rendezvous_and_skew(n: usize, sp: ReqSpec, jitter: usize, helper: bool) {
+    GCN_READY.fetch_add(1, Ordering::SeqCst);
+    while GCN_READY.load(Ordering::SeqCst) < n {
+        std::hint::spin_loop();
+    }
+    if sp.safe {
+        // "native code": the world may be stopped (and a whole collection may run) while this requester is away
+        if helper {
+            rt::helper_enter_safe_region();
+        } else {
+            rt::enter_safe_region();
+        }
+        std::thread::sleep(std::time::Duration::from_micros((sp.skew + jitter) as u64));
+        if helper {
+            rt::helper_leave_safe_region();
+        } else {
+            rt::leave_safe_region();
+        }
+    } else {
+        for _ in 0..sp.skew + jitter {
+            std::hint::spin_loop();
+        }
+    }
+}
+
+/// Would a user collection request be honoured right now? (`GCTrigger::handle_user_collection_request`'s own condition)
+fn user_gc_enabled(force: bool) -> bool {
+    use mmtk::vm::Collection;
+    let mmtk = rt::mmtk();
+    mmtk.get_plan().constraints().collects_garbage
+        && (force || (!*mmtk.get_options().ignore_system_gc && vvm::vm::VCollection::is_collection_enabled()))
+}
+
+/// `specs[0]` is played by the driver thread, every other requester by a helper mutator thread (event-log tid
+/// `10 + m`). All call `handle_user_collection_request` after a spin rendezvous + their skew.
+fn do_gcn(yield_seed: u64, force: bool, exhaustive: bool, specs: &[ReqSpec], labels: &[String]) -> String {
+    let n = specs.len();
+    let en = user_gc_enabled(force);
+    GCN_READY.store(0, Ordering::SeqCst);
+    // seeded jitter (only with `cfg yield <seed>`): up to ~2000 extra spins / microseconds per requester
+    let mut x = yield_seed ^ (OP_SEQ.load(Ordering::SeqCst) as u64 + 1).wrapping_mul(0x9E37_79B9_7F4A_7C15);
+    let mut jit = |k: usize| -> usize {
+        if yield_seed == 0 {
+            return 0;
+        }
+        x ^= x << 13;
+        x ^= x >> 7;
+        x ^= x << 17;
+        (x.wrapping_add(k as u64) % 2000) as usize
+    };
+    let jitters: Vec<usize> = (0..n).map(&mut jit).collect();
+    let mut handles = Vec::new();
+    for (k, sp) in specs.iter().enumerate().skip(1) {
+        let sp = *sp;
+        let j = jitters[k];
+        // the driver is running here, so the world is not stopped: one more running mutator thread
+        rt::helper_register();
+        let h = std::thread::Builder::new()
+            .name(format!("mut{}", sp.m))
+            .spawn(move || {
+                vg::set_tid(10 + sp.m);
+                rt::helper_thread_init();
+                rendezvous_and_skew(n, sp, j, true);
+                let out = user_gc_call(sp.m, force, exhaustive);
+                // the call has returned: from here on this mutator thread runs native code (it is not inside an MMTk
+                // call, does not touch the heap and will not come back) — recorded as VmMisc(3, m)
+                vg::ev(vg::Kind::VmMisc, 3, sp.m);
+                rt::helper_enter_safe_region();
+                out
+            })
+            .expect("spawn helper mutator thread");
+        handles.push(h);
+    }
+    rendezvous_and_skew(n, specs[0], jitters[0], false);
+    let mut outs = vec![user_gc_call(specs[0].m, force, exhaustive)];
+    // the helpers may still be blocked for a collection that needs the driver parked
+    rt::enter_safe_region();
+    for h in handles {
+        outs.push(h.join().unwrap_or_default());
+    }
+    rt::leave_safe_region();
+    let mut line = format!("ok gcs={} en={}", rt::gcs(), en as u8);
+    for (l, o) in labels.iter().zip(outs.iter()) {
+        line.push_str(&format!(" {}={},{},{},{}", l, o.ret, o.blocked, o.before, o.after));
+    }
+    line
+}
+
 fn exec(it: &mut Interp, t: &[&str]) -> Result<String, String> {
     let need = |n: usize| -> Result<(), String> {
         if t.len() < n + 1 {
@@ -665,8 +795,47 @@ fn exec(it: &mut Interp, t: &[&str]) -> Result<String, String> {
             need(2)?;
             let m = unum(t[1]);
             mutator(m)?;
-            mmtk.handle_user_collection_request(rt::mut_tls(m), true, t[2] == "1");
+            vg::ev(vg::Kind::VmMisc, 4, m);
+            let ret = mmtk.handle_user_collection_request(rt::mut_tls(m), true, t[2] == "1");
+            vg::ev(vg::Kind::VmMisc, 5, 2 * m + ret as usize);
             Ok(format!("ok gcs={}", rt::gcs()))
+        }
+        // `gc2 mA mB exhaustive [force [skewA [skewB [safeA [safeB]]]]]`: the driver (as mutator mA) and a helper
+        // mutator thread (as mB) call `handle_user_collection_request` at the same moment (see HX_GC.md)
+        "gc2" => {
+            need(3)?;
+            let num = |i: usize, d: usize| if t.len() > i { unum(t[i]) } else { d };
+            let (ma, mb) = (unum(t[1]), unum(t[2]));
+            mutator(ma)?;
+            mutator(mb)?;
+            if ma == mb {
+                return Err("err bad-args".into());
+            }
+            let specs = [
+                ReqSpec { m: ma, skew: num(5, 0), safe: num(7, 0) == 1 },
+                ReqSpec { m: mb, skew: num(6, 0), safe: num(8, 0) == 1 },
+            ];
+            Ok(do_gcn(it.cfg.yield_seed, num(4, 1) == 1, t[3] == "1", &specs, &["a".to_string(), "b".to_string()]))
+        }
+        // `gcn exhaustive force m[:skew[:safe]] m[:skew[:safe]] ...`: the generalisation; the first requester is the driver
+        "gcn" => {
+            need(3)?;
+            let mut specs = Vec::new();
+            for a in &t[3..] {
+                let f: Vec<&str> = a.split(':').collect();
+                let m = unum(f[0]);
+                mutator(m)?;
+                if specs.iter().any(|s: &ReqSpec| s.m == m) {
+                    return Err("err bad-args".into());
+                }
+                specs.push(ReqSpec {
+                    m,
+                    skew: if f.len() > 1 { unum(f[1]) } else { 0 },
+                    safe: f.len() > 2 && f[2] == "1",
+                });
+            }
+            let labels: Vec<String> = specs.iter().map(|s| format!("r{}", s.m)).collect();
+            Ok(do_gcn(it.cfg.yield_seed, t[2] == "1", t[1] == "1", &specs, &labels))
         }
         "snap" => Ok(do_snap(it)),
         "stats" => Ok(do_stats()),
